@@ -2020,6 +2020,7 @@ pub fn report_failures(
                 // the batch worker died / timed out (machine load); the case itself was now
                 // evaluated alone through the plain forc path and holds
                 rep.add("cases_evaluated_alone_after_worker_death", 1);
+                failing -= 1;
             }
             None => rep.violation(
                 &format!("{key}|only-in-batch"),
